@@ -645,6 +645,30 @@ def _unroll_rep_literals(text, slots):
     return _renumber_slots(" ".join(" ".join(toks).split()), slots)
 
 
+def _hoist_single_slot_reps(text, slots):
+    """`#( #k )*` over it.map(|x| quote!(pre #X post)) with ONE interpolation X is `#( pre #k post )*` over it.map(|x| X): literal tokens around
+    a single interpolated value are written in the repetition, the element is the value"""
+    toks = text.split(" ")
+    slots = list(slots)
+    i = 0
+    changed = False
+    while i + 2 < len(toks):
+        m = re.fullmatch(r"#(\d+)", toks[i + 1])
+        if toks[i] == "#(" and m and toks[i + 2] == ")*" and toks.count(toks[i + 1]) == 1:
+            st = slots[int(m.group(1))]
+            if st[0] == "call" and st[1] == "Iterator::map" and len(st[2]) == 2 and st[2][1][0] == "closure" and st[2][1][3][0] == "tpl" \
+                    and st[2][1][3][1] == "quote" and len(st[2][1][3][3]) == 1 and st[2][1][3][2].split(" ").count("#0") == 1 \
+                    and "#(" not in st[2][1][3][2].split(" ") and st[2][1][3][2] != "#0":
+                clo = st[2][1]
+                inner = clo[3]
+                val = inner[3][0]
+                slots[int(m.group(1))] = st[2][0] if val == ("cparam", clo[1], 0) else ("call", "Iterator::map", [st[2][0], ("closure", clo[1], clo[2], val)])
+                toks[i + 1:i + 2] = [toks[i + 1] if t_ == "#0" else t_ for t_ in inner[2].split(" ")]
+                changed = True
+        i += 1
+    return (" ".join(toks), slots) if changed else (text, slots)
+
+
 def _fold_rep_groups(text, slots):
     """`#( pre #k post )*` over `it.map(|x| quote!(body))` is `#( #k )*` over `it.map(|x| quote!(pre body post))`: the literal tokens of a
     repetition (without separator) belong to every element, wherever they are written"""
@@ -2533,7 +2557,8 @@ class Norm:
                     del text[k + 1]
                     continue
             k += 1
-        tx, sl = _renumber_slots(" ".join(" ".join(text).split()), slots)
+        tx, sl = _hoist_single_slot_reps(" ".join(" ".join(text).split()), slots)
+        tx, sl = _renumber_slots(tx, sl)
         return ("tpl", "quote", tx, sl)
 
     def _canon_mut(self, lid, t, effs, origin):
@@ -3961,6 +3986,7 @@ class Norm:
         text = " ".join(T.render(items, interp).split())
         text, slots = _unroll_rep_literals(text, slots)
         text, slots = _fold_rep_groups(text, slots)
+        text, slots = _hoist_single_slot_reps(text, slots)
         text, slots = _split_rep_parts(text, slots, getattr(self, "_cur_depth", 0) + 1)
         return _tpl_over_match(("tpl", kind, text, slots))
 
